@@ -8,7 +8,11 @@ defs = [a[2:] for a in sys.argv[4:] if a.startswith('-D')]
 U = 4
 for a in sys.argv[4:]:
     if a.startswith('--unwind='): U = int(a.split('=')[1])
-sc = S.Scenario('dev', os.path.abspath(src), defs, threads=T, K=K, unwind=U, race='--race' in sys.argv)
+um = {}
+for a in sys.argv[4:]:
+    if a.startswith('--umap='):
+        for kv in a[7:].split(','): k, v = kv.split('='); um['*' + k + '*'] = int(v)
+sc = S.Scenario('dev', os.path.abspath(src), defs, threads=T, K=K, unwind=U, race='--race' in sys.argv, unwind_map=um, allow_unwound='--allow-unwound' in sys.argv)
 res = S.run_scenario(sc, timeout=600, log=print)
 print('error', res.error)
 print('violations', [(v['kind'], v['where'], {k: x for k, x in v['model'].items() if k.startswith(('nd_', 'cs_'))}) for v in res.violations])
